@@ -37,9 +37,9 @@ def run(ctx):
     if ctx.tier == "thorough":
         fb = ctx.try_facts("bare")
         if fb is not None:
-            check_consume(ctx, fb, "bare", floor=7)
+            check_consume(ctx, fb, "bare", floor=6)
     for cfg, fx in fxs.items():
-        check_consume(ctx, fx, cfg, floor=11)
+        check_consume(ctx, fx, cfg, floor=8)
         check_runtime(ctx, fx, cfg)
     check_siblings(ctx, fxs)
     return core.finish(ctx)
